@@ -51,8 +51,14 @@ def run_case(case):
     container = rng.choice(["list", "list", "tuple", "generator", "map", "iter"])
     init_arg = {"list": lambda v: list(v), "tuple": lambda v: tuple(v), "generator": lambda v: (x for x in v),
                 "map": lambda v: map(int, v), "iter": lambda v: iter(v)}[container](case["init"])
+    from vmon.simkit import decoy
+    decoy(rng, lambda: WishboneSRAM(size=case["size"], data_width=dw, granularity=gran, writable=case["writable"],
+                                    init=[(x ^ 0x5a) & ((1 << dw) - 1) for x in case["init"]]))
+    late_init = rng.random() < 0.2
     dut = WishboneSRAM(size=case["size"], data_width=dw, granularity=gran,
-                       writable=case["writable"], init=init_arg)
+                       writable=case["writable"], init=() if late_init else init_arg)
+    if late_init:
+        dut.init = list(case["init"])      # the image is set through the `init` property after construction
     bus = dut.wb_bus
     depth = case["size"] * gran // dw
     aw = len(bus.adr)
